@@ -91,3 +91,17 @@ Proof.
   - eexists. split; [vm_compute; reflexivity|]. vm_compute. repeat split; discriminate.
   - eexists. split; [vm_compute; reflexivity|]. vm_compute. repeat split.
 Qed.
+
+(** Non-vacuity of the decode-in-the-system theorem: in the run of [sys_example_ops] with the
+    on-the-wire packet numbers, packet #1 (sent with nothing acknowledged: la = -1, 2 bytes) is
+    in flight and the premises about the receiver hold. *)
+From V Require Import PktProt.KeyPhaseSysPn PktProt.KeyPhaseSysPnProofs PktProt.PktNumProofs.
+
+Definition sys_example2 : sys Z Z * list Z :=
+  srun2 sct Z Z sym_seal sym_open window_example_cfg (sinit Z Z 10 (fun _ => 0), []) sys_example_ops.
+
+Lemma sys_example2_ok :
+  exists p, nth_error (sent (fst sys_example2)) 1 = Some p /\ nth_error (snd sys_example2) 1 = Some (-1) /\
+    p_pn p < 2 ^ 62 /\ p_pn p - (-1) <= 2 ^ 31 /\
+    highestRcvdPN (ep (sd (fst sys_example2) (negb (p_from p)))) <= p_pn p + reorder_tolerance (wire_len Z Z p (-1)).
+Proof. eexists. split; [vm_compute; reflexivity|]. vm_compute. repeat split; discriminate. Qed.
